@@ -863,6 +863,17 @@ func (s *Service) setDefaultOwnership() {
 			s.resetAccess = []string{}
 		}
 	}
+
+	// A service without name has no resource of its own name; it owns all
+	// resources.
+	if s.Mux.path == "" {
+		if len(s.resetResources) == 2 && s.resetResources[0] == "" {
+			s.resetResources = s.resetResources[1:]
+		}
+		if len(s.resetAccess) == 2 && s.resetAccess[0] == "" {
+			s.resetAccess = s.resetAccess[1:]
+		}
+	}
 }
 
 // subscribe makes a nats subscription for each required request type, based on
